@@ -146,3 +146,17 @@ M("C04", "server-data-for-request", "c2.py", "        if isinstance(http, HttpRe
 M("C04", "unknown-step-ignored", "c2.py", "            else:\n                raise ValueError(\"Unknown recover step with value: {}\".format((step, step_val)))", "            else:\n                logger.debug(\"Unknown recover step with value: {}\".format((step, step_val)))", "C04.R1")
 T("C04", "twin-in-tuple", "c2.py", "            elif step == \"_header\" or step == \"_hostheader\":", "            elif step in (\"_header\", \"_hostheader\"):")
 T("C04", "twin-uri-plus", "c2.py", "                uri += data", "                uri = uri + data")
+
+# =============================================================================== C06
+M("C06", "size-minus-4", "c2.py", "    metadata.size = len(metadata) - 8", "    metadata.size = len(metadata) - 4", "C06.R1")
+M("C06", "info-array-const", "c_c2.py", "    char info[size - 51];", "    char info[size - 50];", "C06.R1")
+M("C06", "magic-check-after-return", "c2.py", "    metadata = BeaconMetadata(pt)\n    if metadata.magic != 0xBEEF:\n        raise ValueError(f\"Invalid metadata magic, got {metadata.magic:08x}, expected 0xbeef\")\n    return metadata",
+  "    metadata = BeaconMetadata(pt)\n    if metadata.magic != 0xBEEF:\n        logger.warning(f\"Invalid metadata magic, got {metadata.magic:08x}, expected 0xbeef\")\n    return metadata", "C06.R2")
+M("C06", "sentinel-mismatch", "c2.py", "    pt = cipher.decrypt(encrypted_metadata, None)", "    pt = cipher.decrypt(encrypted_metadata, b\"\")", "C06.R2")
+M("C06", "client-magic", "client.py", "        self.metadata.magic = 0xBEEF", "        self.metadata.magic = 0xBEEFCAFE", "C06.R3")
+M("C06", "size-after-dumps", "c2.py", "    metadata.size = len(metadata) - 8\n    return cipher.encrypt(metadata.dumps())", "    data = metadata.dumps()\n    metadata.size = len(metadata) - 8\n    return cipher.encrypt(data)", "C06.R4")
+M("C06", "halves-swapped", "c2.py", "    return digest[:16], digest[16:]", "    return digest[16:], digest[:16]", "C06.R5")
+M("C06", "client-sha1", "client.py", "        digest = hashlib.sha256(self.aes_rand).digest()", "        digest = hashlib.sha1(self.aes_rand + b\"\\x00\" * 12).digest()", "C06.R5")
+M("C06", "unpack-swapped", "c2.py", "            self.aes_key, self.hmac_key = derive_aes_hmac_keys(aes_rand)", "            self.hmac_key, self.aes_key = derive_aes_hmac_keys(aes_rand)", "C06.R5")
+T("C06", "twin-client-uses-helper", "client.py", "        digest = hashlib.sha256(self.aes_rand).digest()\n        self.aes_key = digest[:16]\n        self.hmac_key = digest[16:]",
+  "        d2 = hashlib.sha256(self.aes_rand).digest()\n        self.aes_key = d2[:16]\n        self.hmac_key = d2[16:]")
